@@ -93,6 +93,9 @@ type pos struct {
 	// destined for ("" = the holder itself at root level / decoy sections)
 	Owner string
 	Decoy bool // a section under the chart's real name although it goes by an alias
+	// Targets: every chart instance the section is destined for (a values.yaml
+	// of a chart used twice feeds both uses; decoys are plain data of the parent)
+	Targets []string
 }
 
 func (p pos) String() string { return p.Holder + "/" + strings.Join(p.Path, ".") }
@@ -125,6 +128,11 @@ func positions(root *ChartDef) []pos {
 		sections(n.def.Name, n, nil)
 	}
 	sections("user", r, nil)
+	for i := range out {
+		for _, t := range targetsOf(r, out[i].Holder, out[i].Path) {
+			out[i].Targets = append(out[i].Targets, t.dotted())
+		}
+	}
 	return out
 }
 
